@@ -360,6 +360,34 @@ def t09_loca_woff2(run, fx):
         run.anchor_missing(rule, "write::buffer::<_, LocaTable> in Woff2TableProvider::new")
 
 
+def t09_hhea(run, fx):
+    rule = "T09-HHEA"
+    run.rule(rule, "variations::instance writes an hmtx table with one long metric per glyph on every path (create_hmtx_table / "
+                   "htmx_from_phantom_points push a metric for each glyph), so hhea.numberOfHMetrics is set to maxp.numGlyphs on every path too: "
+                   "an assignment of hhea.num_h_metrics from maxp.num_glyphs dominates the serialisation of hhea")
+    b = fx.body("variations::instance")
+    if b is None:
+        return run.anchor_missing(rule, "variations::instance")
+    prov = sym.Prov(b)
+    writes = []
+    for bi, blk in enumerate(b.blocks):
+        if not b.reachable(bi):
+            continue
+        for st in blk["s"]:
+            if st["k"] == "assign" and st["p"]["p"] and isinstance(st["p"]["p"][-1], dict) and st["p"]["p"][-1].get("n") == "num_h_metrics" and b.local_name(st["p"]["l"]) == "hhea":
+                src = prov.rvalue(st["rv"])
+                if any(x[0] == "field" and x[2] == "num_glyphs" for x in sym.walk(src)):
+                    writes.append(bi)
+    ser = [bi for bi, t in b.calls() if (t["callee"].get("path") or "").endswith("add_table") and "HheaTable" in " ".join(t["callee"].get("args") or [])]
+    if not ser:
+        return run.anchor_missing(rule, "add_table::<_, HheaTable> in variations::instance")
+    if writes and all(any(b.dominates(w, s_) for w in writes) for s_ in ser):
+        run.ok(rule, "hhea.num_h_metrics = maxp.num_glyphs dominates the serialisation of hhea")
+    else:
+        run.fail(rule, "hhea-num-h-metrics", "variations::instance serialises hhea on a path where num_h_metrics was not set to maxp.num_glyphs although the hmtx it "
+                 "writes has one long metric per glyph: hhea and hmtx disagree in the instance", "%s:%s" % (b.file, b.line))
+
+
 def check(run, fx, tier, floors=True):
     t09_prod(run, fx)
     t09_order(run, fx)
@@ -370,6 +398,8 @@ def check(run, fx, tier, floors=True):
     if floors or any(b.root.endswith("Woff2TableProvider::new") for b in fx.bodies):
         t09_loca_woff2(run, fx)
     t09_stale(run, fx)
+    if floors or fx.body("variations::instance") is not None:
+        t09_hhea(run, fx)
     if floors or fx.body("subset::create_hmtx_table") is not None:
         import rules_C07
         rules_C07.t07_hmtx(run, fx)
